@@ -861,6 +861,9 @@ class CSemantics:
             if not (rhs.typ.is_scalar or rhs.typ.is_pointer):
                 self.error("Expected scalar or pointer", rhs.location)
 
+            lhs = self.promote(lhs)
+            rhs = self.promote(rhs)
+
             common_typ = self.get_common_type(lhs.typ, rhs.typ, location)
             lhs = self.coerce(lhs, common_typ)
             rhs = self.coerce(rhs, common_typ)
